@@ -419,7 +419,14 @@ impl Response {
             (ChunkedBodyDecodeStatus::Complete, consumed) => {
                 self.body = std::mem::take(&mut chunked_body.buffer);
                 for header in chunked_body.trailer {
-                    self.headers.add_header(header);
+                    // A trailer must not carry fields which describe the
+                    // message framing (RFC 7230 section 4.1.2).
+                    if header.name != "Content-Length"
+                        && header.name != "Transfer-Encoding"
+                        && header.name != "Trailer"
+                    {
+                        self.headers.add_header(header);
+                    }
                 }
 
                 // Now that we've decoded the chunked body, we should remove
